@@ -101,7 +101,7 @@ func premodel(s *graph.Scenario) (*graph.Instance, *model.Graph) {
 func TestCycles(t *testing.T) {
 	kit.Rec.Rule(rule)
 	rapid.Check(t, func(t *rapid.T) {
-		s := graph.Gen(t, graph.GenOpts{MinNodes: 2, MaxNodes: 6, Variants: "NNNLPE", Aliases: true, Selfs: true})
+		s := graph.Gen(t, graph.GenOpts{MinNodes: 2, MaxNodes: 6, Variants: "NNNLPEU", Aliases: true, Selfs: true})
 		// place required variants: mostly where satisfiable, sometimes not
 		in, g := premodel(s)
 		for i := range s.Nodes {
@@ -245,6 +245,9 @@ func enumerate(t *testing.T, n int, withRequired bool) {
 						}
 					}
 					v := byte('Q')
+					if (adj+pi+i)%3 == 1 {
+						v = 'U' // the same edge set through a func-tag point instead of a wire point
+					}
 					if req&(1<<i) != 0 {
 						v = 'S'
 					}
